@@ -344,6 +344,9 @@ func (g *gen) structLit(gt, pt types.Type) (string, string) {
 				zeroable = true
 				_ = u
 			}
+			if np := namedPath(gs.Field(i).Type()); np == "time.Duration" || np == "time.Time" {
+				zeroable = false // non-nullable stdduration / stdtime fields: gogoproto writes them even when zero
+			}
 			if zeroable {
 				a = fmt.Sprintf("c20If(tail == 0 || %d <= tail, %s)", n, a)
 				b = fmt.Sprintf("c20If(tail == 0 || %d <= tail, %s)", n, b)
